@@ -99,9 +99,18 @@ func Main(cfg *vlib.Config, r *vlib.Report, scenarios []Scenario, quick, thoroug
 	r.SetRule(rule)
 	vlib.RunShards(r, names, func(shard string, r *vlib.Report) {
 		for _, name := range shardOf[shard] {
-			runScenario(cfg, r, byName[name], bounds)
+			if cfg.RacePass {
+				racePass(cfg, r, byName[name])
+			} else {
+				runScenario(cfg, r, byName[name], bounds)
+			}
 		}
 	})
+	if cfg.RacePass {
+		r.SetRule("free-running race-detector pass over the scenario bodies (assumption check, decides nothing)")
+		r.Nontrivial("race-pass-a")
+		r.Nontrivial("race-pass-b")
+	}
 	r.Finish()
 }
 
@@ -177,5 +186,73 @@ func Guard(e *vsched.Exec) *Verdict {
 		return &Verdict{Class: "crash", Msg: "uncaught panic in a thread: " + strings.Join(e.Panics(), "; "), Sig: "crash"}
 	default:
 		return &Verdict{Class: e.Outcome, Msg: e.Outcome + ": " + strings.Join(e.Blocked(), " "), Sig: e.Outcome}
+	}
+}
+
+// racePass runs the scenario's body free (no controlled execution: every shim operation passes
+// through to the real primitive) under the race detector. It validates the data-race-freedom
+// assumption behind the fingerprint table; it never decides a property. Races whose two accesses
+// are both in harness code (package main / the shim) are artefacts of running harness bookkeeping
+// without the cooperative scheduler and are ignored.
+func racePass(cfg *vlib.Config, r *vlib.Report, sc *Scenario) {
+	const runs = 30
+	finished, stuck := 0, 0
+	for i := 0; i < runs && stuck < 2; i++ {
+		done := make(chan struct{})
+		go func() {
+			defer close(done)
+			defer func() { recover() }()
+			sc.Body()
+		}()
+		select {
+		case <-done:
+			finished++
+		case <-time.After(2 * time.Second):
+			stuck++ // bodies that need virtual time or park on harness gates do not finish free-running
+		}
+	}
+	time.Sleep(50 * time.Millisecond)
+	// the race detector appends to <log_path>.<pid> as soon as a race is reported
+	logf := fmt.Sprintf("%s.race.%d", cfg.Out, os.Getpid())
+	b, _ := os.ReadFile(logf)
+	os.Remove(logf)
+	total, relevant := 0, 0
+	var first string
+	for _, blk := range strings.Split(string(b), "==================") {
+		if !strings.Contains(blk, "DATA RACE") {
+			continue
+		}
+		total++
+		// top frame of each access section
+		var tops []string
+		lines := strings.Split(blk, "\n")
+		for i, l := range lines {
+			t := strings.TrimSpace(l)
+			if (strings.HasPrefix(t, "Write at") || strings.HasPrefix(t, "Read at") || strings.HasPrefix(t, "Previous write at") || strings.HasPrefix(t, "Previous read at")) && i+1 < len(lines) {
+				tops = append(tops, strings.TrimSpace(lines[i+1]))
+			}
+		}
+		inRepo := false
+		for _, t := range tops {
+			if strings.Contains(t, "github.com/zeromicro/go-zero/") && !strings.Contains(t, "/verifshim/") {
+				inRepo = true
+			}
+		}
+		if inRepo {
+			relevant++
+			if first == "" {
+				first = strings.Join(tops, " | ")
+			}
+		}
+	}
+	r.Eval(finished)
+	r.Count("race_pass_runs_finished", finished)
+	r.Count("race_pass_runs_not_finishing_free", stuck)
+	r.Count("race_reports_total", total)
+	r.Count("race_reports_in_go_zero_code", relevant)
+	r.Scenario(sc.Name, map[string]any{"free_runs_finished": finished, "not_finishing": stuck, "race_reports": total, "races_in_go_zero_code": relevant, "first": first})
+	if relevant > 0 {
+		fmt.Printf("RACE scenario=%s reports=%d first: %s\n", sc.Name, relevant, first)
+		r.Assume(fmt.Sprintf("DRF assumption broken for scenario %s: %s", sc.Name, first))
 	}
 }
